@@ -88,9 +88,13 @@ func c16Schema() *tspace.Schema {
 var (
 	c16WinMu  sync.Mutex
 	c16Window func()
+	// c16UpdateHook, when set, is called by the client hook at every
+	// client.update.before point (notification decoded, nothing applied yet).
+	c16UpdateHook func()
 )
 
 type c16result struct {
+	held      int // notifications held back on an abandoned connection
 	windows   int // transactions committed inside a monitor window
 	c2s, s2c  int // message counts on the first connection (fault-free run)
 	findings  []finding
@@ -124,6 +128,8 @@ func c16Session(r *ev.Run, m *dyn.Model, shape c16shape, f c16fault, batch, idx 
 	switch f.kind {
 	case "cut-after", "cut-after+window":
 		px.AddFault(&proxy.Fault{Dir: f.dir, AfterMsg: f.k, ConnIndex: 0})
+	case "abandoned-connection":
+		// scripted below, after the monitors are established
 	case "cut-inside":
 		px.AddFault(&proxy.Fault{Dir: f.dir, AfterMsg: f.k, Inside: true, ConnIndex: 0})
 	case "double-cut":
@@ -276,6 +282,67 @@ func c16Session(r *ev.Run, m *dyn.Model, shape c16shape, f c16fault, batch, idx 
 	}
 	clientTxn()
 	res.c2s, res.s2c = px.Counts(0)
+	if f.kind == "abandoned-connection" && len(monitored) >= 2 {
+		// The connection is cut. During the reconnection attempt, right after the first
+		// restarted monitor's reply, another client commits a transaction touching every
+		// monitored table; its notification reaches the client on that new connection and
+		// is held back before anything is applied; then that connection is cut as well, so
+		// the attempt fails half-way and the connection is abandoned. The held notification
+		// is released only after the client has reconnected for good (complete contents,
+		// which include the transaction): it must not be applied again.
+		var phase int32
+		rel := make(chan struct{})
+		held := make(chan struct{})
+		installClientHook()
+		c16WinMu.Lock()
+		c16Window = func() {
+			if atomic.CompareAndSwapInt32(&phase, 1, 2) {
+				go func() {
+					var ops []ovsdb.Operation
+					for tn := range monitored {
+						us := dyn.SortedUUIDs(pre.T[tn])
+						if len(us) > 0 {
+							ops = append(ops, ovsdb.Operation{Op: "mutate", Table: tn, Where: []ovsdb.Condition{{Column: "_uuid", Function: "==", Value: ovsdb.UUID{GoUUID: us[len(us)/2]}}},
+								Mutations: []ovsdb.Mutation{{Column: "ports", Mutator: "insert", Value: ovsdb.OvsSet{GoSet: []interface{}{"held-back"}}}}})
+						}
+					}
+					var reply []ovsdb.OperationResult
+					_ = writer.Call("transact", ovsdb.NewTransactArgs(s.Name, ops...), &reply, 3*time.Second)
+				}()
+				select {
+				case <-held: // the notification is in the client's hands
+				case <-time.After(2 * time.Second):
+				}
+				px.CutAll() // the reconnection attempt fails on its next request
+			}
+		}
+		c16UpdateHook = func() {
+			if atomic.CompareAndSwapInt32(&phase, 2, 3) {
+				close(held)
+				<-rel
+			}
+		}
+		c16WinMu.Unlock()
+		pre, _ = m.Snapshot(srv.DB)
+		atomic.StoreInt32(&phase, 1)
+		px.CutAll()
+		// wait until the client is connected again on a connection of its own
+		for i := 0; i < 1500; i++ {
+			if atomic.LoadInt32(&phase) >= 2 && cl.Connected() {
+				break
+			}
+			time.Sleep(10 * time.Millisecond)
+		}
+		time.Sleep(50 * time.Millisecond)
+		if atomic.LoadInt32(&phase) == 3 {
+			res.held = 1
+		}
+		close(rel)
+		c16WinMu.Lock()
+		c16Window, c16UpdateHook = nil, nil
+		c16WinMu.Unlock()
+		time.Sleep(50 * time.Millisecond)
+	}
 
 	// bounded progress: connected again, or no new attempt for a long quiet period
 	lastAccepted, quiet := px.Accepted(), 0
@@ -417,6 +484,9 @@ func c16Child(r *ev.Run, batch int) {
 		for k := 2; k <= base.s2c; k += 2 {
 			faults = append(faults, c16fault{kind: "cut-after+window", dir: proxy.S2C, k: k})
 		}
+		if shape.nMon >= 2 {
+			faults = append(faults, c16fault{kind: "abandoned-connection", dir: proxy.S2C, k: 0}, c16fault{kind: "abandoned-connection", dir: proxy.S2C, k: 1})
+		}
 		for k := 2; k <= base.s2c; k += 3 {
 			faults = append(faults, c16fault{kind: "double-cut", dir: proxy.S2C, k: k, second: 1 + k%5})
 			faults = append(faults, c16fault{kind: "refuse", dir: proxy.C2S, k: k})
@@ -435,6 +505,7 @@ func c16Child(r *ev.Run, batch int) {
 			r.Distinct(shape.String() + "|" + f.String())
 			r.Count("sessions."+f.kind, 1)
 			r.Count("transactions-committed-inside-a-monitor-window", res.windows)
+			r.Count("notifications-held-back-on-an-abandoned-connection", res.held)
 			for _, fd := range res.findings {
 				n := len(res.log)
 				from := 0
